@@ -182,6 +182,14 @@ class SymBuilder:
             raise Infeasible()
         self.ctx.assume(zbool(cond))
 
+    def a_wcs(self, I, name, frame='icrs'):
+        """an arbitrary invertible celestial WCS (assumed contract externals/wcs_model.py)"""
+        cls = I.get('externals/wcs_model.py::WCS')
+        w = I.call(cls, [self._leaf(name + '.id', 'int'), frame], {})
+        w.old = True
+        w.label = name
+        return w
+
     def a_ref(self, I, dotted):
         return I.get(dotted)
 
